@@ -360,3 +360,22 @@ Definition must_actors_match (box : string) (a : json) : prog (res unit) :=
       activity_actors <-? lift (to_ids "actor" al) ;;
       foreach (elems0 "object" a) (actors_match_one box activity_actors)
   end.
+
+(* ---- hidden recipients (C03) ---- *)
+(* a value carries hidden recipients if its type has the property and the member is present *)
+Definition hidden_on (v : json) : bool := (vhas v "bto" && jhas "bto" v) || (vhas v "bcc" && jhas "bcc" v).
+(* the activity itself and the values embedded in its object property *)
+Definition no_hidden (a : json) : bool :=
+  negb (hidden_on a) && forallb (fun e => match e_type "object" e with Some v => negb (hidden_on v) | None => true end) (elems0 "object" a).
+(* at every depth of object nesting *)
+Fixpoint deep_no_hidden (fuel : nat) (v : json) : bool :=
+  match fuel with
+  | O => true
+  | S f => negb (hidden_on v) &&
+           (if vhas v "object" then
+              forallb (fun e => match e_type "object" e with Some x => deep_no_hidden f x | None => true end) (elems0 "object" v)
+            else true)
+  end.
+
+
+
